@@ -72,6 +72,7 @@ type World struct {
 	specSMT        []string // translated spec funcs
 	intrinsicsUsed map[string]bool
 	globalDecls    []string
+	modsets        map[string][]string
 }
 
 func loadWorld(repo string, overlay map[string][]byte, trustedDir string) (*World, error) {
@@ -183,6 +184,14 @@ func loadWorld(repo string, overlay map[string][]byte, trustedDir string) (*Worl
 			}
 		}
 		return out, nil
+	}
+	w.modsets = map[string][]string{}
+	for k, v := range modsets {
+		ex, err := expand(v, 0)
+		if err != nil {
+			return nil, err
+		}
+		w.modsets[k] = ex
 	}
 	for _, sf := range specFiles {
 		for _, c := range sf.Contracts {
